@@ -120,7 +120,7 @@ func caseGen() *rapid.Generator[Case] {
 		} else {
 			c.Script = sg.Draw(t, "script")
 		}
-		c.Err = rapid.SampledFrom([]string{"", "", "", "eof", "short", "closed"}).Draw(t, "err")
+		c.Err = rapid.SampledFrom([]string{"", "", "", "eof", "short", "closed", "epipe", "wrapped", "nocause", "deadline", "canceled"}).Draw(t, "err")
 		c.Rich = rapid.IntRange(0, 3).Draw(t, "rich") == 0
 		bigOneIn := 250
 		if h.Thorough() {
